@@ -18,6 +18,8 @@ import (
 	"k8s.io/apimachinery/pkg/apis/meta/v1/unstructured"
 	"k8s.io/apimachinery/pkg/runtime"
 	"k8s.io/apimachinery/pkg/runtime/schema"
+	"k8s.io/apimachinery/pkg/types"
+	"sigs.k8s.io/controller-runtime/pkg/client"
 
 	fnv1 "github.com/crossplane/crossplane/apis/apiextensions/fn/proto/v1"
 	"github.com/crossplane/crossplane/verifh/kit"
@@ -66,6 +68,9 @@ type pcase struct {
 	// Flip lists resource names that the reconcile under test desires at apiVersion v2 although
 	// they were composed at v1 (same kind: the name keeps its kind, as the quantifier requires)
 	Flip []string `json:"flipVersion,omitempty"`
+	// SameNameNS: all composed resources are namespaced objects of one kind and ONE metadata.name,
+	// told apart only by their namespace
+	SameNameNS bool `json:"sameNameAcrossNamespaces,omitempty"`
 	// Beta lists the steps whose function serves only the v1beta1 RunFunction API
 	Beta []int `json:"betaOnlySteps,omitempty"`
 	// GCFault: the first plain Update of a composed resource in the reconcile under test (the
@@ -103,6 +108,7 @@ func (p *pcase) finalDesired() map[string]bool {
 func genCase(c *kit.Ctx, i int) pcase {
 	r := c.Rng("pipe", i)
 	var p pcase
+	p.SameNameNS = c.Rng("samename", i).IntN(5) == 0
 	for _, n := range allNames {
 		if r.IntN(2) == 0 {
 			p.Initial = append(p.Initial, n)
@@ -143,7 +149,7 @@ func genCase(c *kit.Ctx, i int) pcase {
 	}
 	for _, n := range p.Initial {
 		if r.IntN(4) == 0 {
-			p.Perturb = append(p.Perturb, perturbation{Name: n, What: []string{"missing", "terminating", "foreign", "uncontrolled"}[r.IntN(4)]})
+			p.Perturb = append(p.Perturb, perturbation{Name: n, What: []string{"missing", "terminating", "foreign", "uncontrolled", "legacy-managers"}[r.IntN(5)]})
 		}
 	}
 	if failAt < 0 && r.IntN(6) == 0 {
@@ -158,6 +164,7 @@ func genCase(c *kit.Ctx, i int) pcase {
 			p.Beta = append(p.Beta, st)
 		}
 	}
+
 	for _, n := range p.Initial {
 		if r.IntN(5) == 0 {
 			p.Flip = append(p.Flip, n)
@@ -215,6 +222,7 @@ func newWorker(c *kit.Ctx, id int) *worker {
 			panic(err)
 		}
 	}
+	bw.SetKind(schema.GroupKind{Group: "nop.ex.org", Kind: "NsThing"}, sim.KindInfo{Namespaced: true})
 	w.base = bw
 	return w
 }
@@ -230,8 +238,13 @@ func desiredWith(req *fnv1.RunFunctionRequest) *fnv1.State {
 	return d
 }
 
-func addRes(d *fnv1.State, n string, v2 bool) error {
+func addRes(d *fnv1.State, n string, v2, sameNameNS bool) error {
 	o := nopObj(kindOf(n), "v-"+n)
+	if sameNameNS {
+		// every composed resource is an NsThing called "settings", each in its own namespace
+		o = nopObj("NsThing", "v-"+n)
+		o["metadata"] = map[string]any{"name": "settings", "namespace": "team-" + n}
+	}
 	if v2 {
 		o["apiVersion"] = "nop.ex.org/v2"
 	}
@@ -254,7 +267,7 @@ func (w *worker) program(step int, req *fnv1.RunFunctionRequest) (*fnv1.RunFunct
 	if initial {
 		if step == 0 {
 			for _, n := range p.Initial {
-				if err := addRes(d, n, false); err != nil {
+				if err := addRes(d, n, false, p.SameNameNS); err != nil {
 					return nil, err
 				}
 			}
@@ -272,7 +285,7 @@ func (w *worker) program(step int, req *fnv1.RunFunctionRequest) (*fnv1.RunFunct
 				flip = true
 			}
 		}
-		if err := addRes(d, n, flip); err != nil {
+		if err := addRes(d, n, flip, p.SameNameNS); err != nil {
 			return nil, err
 		}
 	}
@@ -404,6 +417,22 @@ func (w *worker) runCase(i int, name string) {
 		case "uncontrolled":
 			u.SetOwnerReferences(nil)
 			_ = user.Update(nil, u) //nolint:staticcheck
+		case "legacy-managers":
+			// the resource looks as if composed before the XR moved to functions: its only field
+			// manager is the client-side "crossplane" one (no server-side-apply manager yet), so the
+			// composer has a managed-fields upgrade pending for it
+			reset := []byte(fmt.Sprintf(`[{"op":"replace","path":"/metadata/managedFields","value":[{}]},{"op":"replace","path":"/metadata/resourceVersion","value":"%s"}]`, u.GetResourceVersion()))
+			if err := user.Patch(nil, u, client.RawPatch(types.JSONPatchType, reset)); err == nil { //nolint:staticcheck
+				u = &unstructured.Unstructured{Object: world.GetObj(k)}
+				lb := u.GetLabels()
+				if lb == nil {
+					lb = map[string]string{}
+				}
+				lb["legacy"] = "yes"
+				u.SetLabels(lb)
+				_ = user.Update(nil, u) //nolint:staticcheck
+				c.Count("perturb_legacy_managers", 1)
+			}
 		}
 	}
 
